@@ -74,7 +74,14 @@ namespace ST
             if (size == ST_AUTO_SIZE)
                 size = data ? std::char_traits<char>::length(data) : 0;
 
-            expand_buffer(size);
+            if (data >= m_chars && data < m_chars + m_size) {
+                // The source is part of this stream; follow it if the buffer moves
+                const size_t offset = data - m_chars;
+                expand_buffer(size);
+                data = m_chars + offset;
+            } else {
+                expand_buffer(size);
+            }
 
             std::char_traits<char>::move(m_chars + m_size, data, size);
             m_size += size;
